@@ -112,10 +112,22 @@ Ltac arith_goal :=
   | (symmetry; apply wrap_u_id; assumption)
   | (symmetry; apply wrap_u_to_s; assumption) ].
 
+(* comparison goals.  Constants stay folded (no case analysis on to_s: such proofs are slow
+   to re-check at Qed); small nats are turned into their signed reading by to_s_small *)
+Ltac lia_w := unfold word, srange in *; pose proof M64_H64; lia.
+Ltac small_nats :=
+  repeat match goal with
+  | H : word ?w |- context [to_s ?w] => rewrite (to_s_small w) by lia_w
+  end.
 Ltac cmp_goal :=
-  unfold ieq, ine, ilt_u, ile_u, igt_u, ige_u, ilt_s, ile_s, igt_s, ige_s, to_s, wrap_u, word, srange, M64, H64 in *;
-  repeat match goal with |- context [?w <? 9223372036854775808] => destruct (w <? 9223372036854775808) eqn:? end;
-  lia.
+  first
+  [ (unfold ieq, ine, ilt_u, ile_u, igt_u, ige_u, ilt_s, ile_s, igt_s, ige_s; synrefl)
+  | (apply ieq_s_ok; assumption) | (apply ine_s_ok; assumption)
+  | (apply ieq_mixed_l; first [assumption | lia_w]) | (apply ieq_mixed_r; first [assumption | lia_w])
+  | (apply ine_mixed_l; first [assumption | lia_w]) | (apply ine_mixed_r; first [assumption | lia_w])
+  | (f_equal; apply ine_zero_s; assumption) | (f_equal; apply ine_zero_u)
+  | (apply ine_zero_s; assumption) | (apply ine_zero_u)
+  | (unfold ilt_u, ile_u, igt_u, ige_u, ilt_s, ile_s, igt_s, ige_s; small_nats; synrefl) ].
 
 Ltac model_cbn :=
   cbn [claim py_bin py_un py_truth py_conv py_abs py_divmod py_cmp_Z py_cmp_F py_arith_Z py_arith_F option_map
@@ -152,12 +164,8 @@ Ltac destruct_vals :=
 (* int.__pow__ guards with `if exponent < 0: panic`: discharge the guard *)
 Ltac pow_guard :=
   repeat match goal with
-  | |- context [ilt_s ?w 0] =>
-      let E := fresh "E" in
-      assert (E : ilt_s w 0 = false) by
-        (unfold ilt_s; replace (to_s 0) with 0 by (vm_compute; reflexivity); unfold to_s, word, srange, M64, H64 in *;
-         repeat match goal with |- context [?w <? 9223372036854775808] => destruct (w <? 9223372036854775808) eqn:? end; lia);
-      rewrite E; cbv beta iota
+  | H : word ?w |- context [ilt_s ?w 0] =>
+      rewrite (ilt_s_zero_false w H) by (first [ (right; lia_w) | (left; lia_w) ]); cbv beta iota
   end.
 
 Ltac finish :=
